@@ -75,6 +75,19 @@ CLAIMED["C01"] = dict(
          "Alignment 32/64 is a KNOWN FINDING (only 16-byte aligned). Shared arena = arena + lock (lock: C14).",
     ref="6 C01")
 
+CLAIMED["C02"] = dict(
+    technique="Lean 4 refinement proof: scope factory (arena of 64-byte records, pointer arithmetic, parent pointers, rewind) refines a stack; multi-thread script correspondence",
+    text="Refinement theorems for every nesting depth and history: begin pushes a fresh scope whose parent is the previous "
+         "innermost scope; gp_last_scope is the innermost live scope or the fallback, never a garbage pointer; defer appends to "
+         "exactly one scope; ending the scope at depth i emits, innermost first, each ended scope's deferred calls once in LIFO "
+         "order followed by its release, and leaves exactly the older scopes (records intact, factory invariant re-established "
+         "incl. the pop of an emptied factory node); thread exit ends all remaining scopes the same way.",
+    note="Built on the C01 arena model (the factory IS a C01 arena with growth 2, max 1<<15, alignment 16; sizeof(GPScope)=64 "
+         "read from the source, checked by the correspondence). Modelled, not verified: the scopes' own arenas (C01), the defer "
+         "stack's doubling inside the scope arena (a list in the model), pthread TLS destructors / atexit (observed by the "
+         "correspondence run only).",
+    ref="6 C02")
+
 PENDING = {}
 
 def main():
